@@ -1,6 +1,6 @@
 SPECIFICATION Spec
 CONSTANTS
-  MaxCommits = 4
+  MaxCommits = 3
   MaxOps = 2
 VIEW View
-INVARIANTS C14_BlockExact C14_NoChangeMigrates Emit
+INVARIANTS C14_BlockExact C14_NoChangeMigrates C15_TableMatchesHistory Emit
